@@ -28,11 +28,11 @@ func (t Type) String() string {
 }
 
 type Obj struct {
-	T        Type
-	S        []byte
-	L        [][]byte
-	H        map[string]string
-	Set      map[string]struct{}
+	T   Type
+	S   []byte
+	L   [][]byte
+	H   map[string]string
+	Set map[string]struct{}
 	// The deadline (absolute Unix ms; 0 = none) is known as an interval: a relative TTL is added to the
 	// server's clock at some moment between the client's send and receive times of that command.
 	Deadline   int64 // earliest possible deadline
@@ -330,8 +330,8 @@ func (e Exp) String() string {
 
 // Ctx is the evaluation context of one command.
 type Ctx struct {
-	M   *Model
-	S   *Session
+	M *Model
+	S *Session
 	// The command executed on the server at some moment in [Now, NowHi] (client send / receive time, Unix ms).
 	Now   int64
 	NowHi int64
